@@ -1,3 +1,5 @@
 -- Root of the `BindgenModel` library: models, generated tables, lemmas, property theorems.
 import BindgenModel.Model.BitfieldUnit
 import BindgenModel.Model.Post
+import BindgenModel.Model.Format
+import BindgenModel.Model.Pipe
